@@ -929,6 +929,63 @@ def _c20_17(ctx):
                          "shapes (prefix, section count, x-of-y, digest length / alphabet) refused" % n, fn, mod, key="part-sizes")]
 
 
+def c20_18(ctx):
+    """a whole UR in the spellings a QR reader hands over: BCURSingle.parse and BCURMulti.parse evaluated end to end (part parser, bc32, digest, CBOR,
+    constructor -- no stand-ins) on `ur:bytes/[digest/]payload` and on the 1of1 / 2-part forms, each as emitted (lower case), upper-cased as a whole
+    (QR alphanumeric mode) and with surrounding white space; every one gives back the payload the reference encoder started from.  Payloads of 1, 23,
+    24 and 300 bytes (both sides of the CBOR prefix boundary)."""
+    import base64
+    import hashlib
+    from sa.cells import ClassRef, Evaluator, FileStandIn, Obj, Raised, Undecided
+    out, n = [], 0
+    for spec in ("bcur:BCURSingle.parse", "bcur:BCURMulti.parse"):
+        mod, fn = rl.get(ctx, spec)
+        cls = spec.split(":")[1].split(".")[0]
+        bad = None
+        try:
+            for size in (1, 23, 24, 300):
+                data = bytes((i * 37 + size) % 256 for i in range(size))
+                cbor = (bytes([0x40 + size]) if size <= 23 else bytes([0x58, size]) if size <= 255 else b"\x59" + size.to_bytes(2, "big")) + data
+                pay, dig = _bc32_ref(cbor), _bc32_ref(hashlib.sha256(cbor).digest())
+                b64 = base64.b64encode(data).decode()
+                if cls == "BCURSingle":
+                    forms = [("with digest", "ur:bytes/%s/%s" % (dig, pay)), ("without digest", "ur:bytes/%s" % pay)]
+                else:
+                    half = (len(pay) + 1) // 2
+                    forms = [("one part 1of1", ["ur:bytes/1of1/%s/%s" % (dig, pay)])]
+                    if len(pay) > 1:
+                        forms.append(("two parts", ["ur:bytes/1of2/%s/%s" % (dig, pay[:half]), "ur:bytes/2of2/%s/%s" % (dig, pay[half:])]))
+                for what, text in forms:
+                    for spell, tf in (("as emitted", lambda t: t), ("upper-cased", str.upper), ("with surrounding white space", lambda t: "  " + t + "\n")):
+                        arg = tf(text) if isinstance(text, str) else [tf(t) for t in text]
+                        n += 1
+                        try:
+                            r = Evaluator(ctx.repo, externals={"BytesIO": lambda b: FileStandIn(b)}, max_steps=6000000).call(spec, [arg], self_obj=ClassRef(mod.name, cls))
+                        except Raised as x:
+                            bad = "a %d-byte payload, %s, %s, is refused (%s): the reference encoding of the payload cannot be reassembled" % (size, what, spell, x.name)
+                            break
+                        got = r.attrs.get("text_b64") if isinstance(r, Obj) else None
+                        if isinstance(got, bytes):
+                            got = got.decode()
+                        if got is None or base64.b64decode(got) != data:
+                            bad = "a %d-byte payload, %s, %s, reassembles to another payload" % (size, what, spell)
+                            break
+                    if bad:
+                        break
+                if bad:
+                    break
+        except Undecided as u:
+            out.append(ctx.err(spec, "whole-UR cells not evaluable: %s" % u, fn, mod))
+            continue
+        if bad:
+            out.append(ctx.bad(spec, bad, fn, mod, key="ur-spelling"))
+        else:
+            out.append(ctx.ok(spec, "payloads of 1, 23, 24, 300 bytes × forms × {as emitted, upper-cased, surrounded by white space}: reassembled to the payload encoded by the rule's "
+                                    "reference bc32 / CBOR / SHA-256", fn, mod, key="ur-spelling"))
+    ctx.count("cells", n)
+    return out
+
+
 
 def _c20_5_deferring(ctx):
     """shape of a part (GUARDs and accept sets of the part parser); where the parser is in another form the part cells (C20.17: well-formed parts
@@ -947,6 +1004,7 @@ def _c20_5_deferring(ctx):
 
 OBLIGATIONS = [
     ("C20.17", "CELLS part sizes", c20_17),
+    ("C20.18", "CELLS whole UR spellings", c20_18),
     ("C20.16", "CELLS bc32 spelling", c20_16),
     ("C20.14", "CELLS cbor round trip (bounded)", c20_14),
     ("C20.15", "TOTALITY part parser", c20_15),
